@@ -295,7 +295,8 @@ where
             let response = request_handler.clone()(req.clone()).await;
             //dbg!(&response);
             match response.kind {
-                ResponseKind::Normal => {}
+                // The handler answered without asking for the body.  Send its answer.
+                ResponseKind::Normal => return write_handler_response(http_conn, &response).await,
                 ResponseKind::DropConnection => return Err(HttpError::Disconnected),
                 ResponseKind::GetBodyAndReprocess(max_len) => {
                     let cache_dir = opt_cache_dir.ok_or(HttpError::CacheDirNotConfigured)?;
@@ -314,11 +315,18 @@ where
         ResponseKind::DropConnection => return Err(HttpError::Disconnected),
         ResponseKind::GetBodyAndReprocess(..) => return Err(HttpError::AlreadyGotBody),
     }
+    write_handler_response(http_conn, &response).await
+}
+
+async fn write_handler_response(
+    http_conn: &mut HttpConn,
+    response: &Response,
+) -> Result<(), HttpError> {
     if response.is_normal() && (response.is_4xx() || response.is_5xx()) {
-        let _ignored = http_conn.write_response(&response).await;
+        let _ignored = http_conn.write_response(response).await;
         Err(HttpError::Disconnected)
     } else {
-        http_conn.write_response(&response).await
+        http_conn.write_response(response).await
     }
 }
 
